@@ -580,4 +580,63 @@ theorem subAllocate_subIdx {s s' : State} {frm toA : Addr} {id : Nat} {bytes : I
     simp only [subView_emit, setAllocation, subView_allocs, hto, Option.getD_some, Option.isNone_some, if_false, hf1, hf2, ht1, ht2, Bool.false_eq_true]
     rfl
 
+/-! ### the hourly payout step -/
+
+theorem payoutAdvance_id (p : Payout) : (payoutAdvance p).id = p.id := by unfold payoutAdvance; simp only []; split <;> rfl
+theorem payoutAdvance_addr (p : Payout) : (payoutAdvance p).addr = p.addr := by unfold payoutAdvance; simp only []; split <;> rfl
+theorem payoutAdvance_node (p : Payout) : (payoutAdvance p).node = p.node := by unfold payoutAdvance; simp only []; split <;> rfl
+theorem payoutAdvance_hours (p : Payout) : (payoutAdvance p).hours = p.hours - 1 := by
+  unfold payoutAdvance; simp only []; split <;> rfl
+
+theorem payoutStepV {v : SubView} {p p' : Payout} {j : Nat} (hi : SubIdxV v) (hp : v.payouts.get j = some p)
+    (hq : v.payQ.has (p.nextAt, j) = true) (p1 : p'.addr = p.addr) (p2 : p'.node = p.node) (p3 : p'.hours = p.hours - 1) :
+    SubIdxV { v with payQ := if p'.hours > 0 then (v.payQ.erase (p.nextAt, j)).set (p'.nextAt, j) () else v.payQ.erase (p.nextAt, j),
+                     payouts := v.payouts.set j p' } := by
+  refine SubIdxV.local j hi ?_ ?_ ?_
+  · intro i hne
+    constructor <;> intros <;> (try split) <;> simp [Tbl.has_set, Tbl.has_erase, Tbl.get_set, Tbl.get_erase, hne, Ne.symm hne]
+  · obtain ⟨a1, a2, a3, a4, a5, a6, a7, a8, a9, a10, a11, a12, a13, a14⟩ := hi.ids j
+    have hph : v.payouts.has j = true := Tbl.has_of_get hp
+    obtain ⟨p0, x, hp0, _, hh, hx, hxs⟩ := (a14 p.nextAt).mp hq
+    rw [hp] at hp0; simp only [Option.some.injEq] at hp0; subst hp0
+    have hsh : v.subs.has j = true := Tbl.has_of_get hx
+    simp [hp, hph, hx, hsh, hxs] at a1 a2 a3 a4 a5 a6 a7 a8 a9 a10 a11 a12 a13 a14
+    by_cases hpos : p'.hours > 0
+    · simp only [hpos, if_true]
+      constructor <;> intros <;>
+        simp_all [Tbl.has_set, Tbl.has_erase, Tbl.get_set, Tbl.get_erase, Sub.hourlyOn] <;> (try omega) <;> grind
+    · simp only [hpos, if_false]
+      constructor <;> intros <;>
+        simp_all [Tbl.has_set, Tbl.has_erase, Tbl.get_set, Tbl.get_erase, Sub.hourlyOn] <;> (try omega) <;> grind
+  · obtain ⟨n1, n2, n3, n4, n5, n6, n7, n8, n9, n10, n11⟩ := hi.nodup
+    refine ⟨?_, ?_, ?_, ?_, ?_, ?_, ?_, ?_, ?_, ?_, ?_⟩ <;> (try split) <;>
+      (repeat' first | assumption | apply Tbl.nodup_set | apply Tbl.nodup_erase)
+
+/-- What `payoutStep` does to the thirteen tables. -/
+theorem payoutStep_view {s s' : State} {k : Time × Nat} (h : payoutStep s k = .ok s') :
+    ∃ item, s.payouts.get k.2 = some item ∧
+      subView s' = { subView s with
+        payQ := if (payoutAdvance item).hours > 0 then (s.payQ.erase (item.nextAt, item.id)).set ((payoutAdvance item).nextAt, item.id) ()
+                else s.payQ.erase (item.nextAt, item.id),
+        payouts := s.payouts.set item.id (payoutAdvance item) } := by
+  unfold payoutStep at h
+  simp only [bind_eq_ok, pure_eq_ok, requireP_eq_ok, orPanic_eq_ok] at h
+  obtain ⟨item, hitem, reward, _, s2, h2, payAmt, _, _, _, s3, h3, rfl⟩ := h
+  have hfr := (sendCoinFromDepositToModule_frame h2).trans (sendCoinFromDepositToAccount_frame h3)
+  refine ⟨item, hitem, ?_⟩
+  rw [hfr.eq]
+  simp only [payoutAdvance_id]
+  split <;> rfl
+
+theorem payoutStep_subIdx {s s' : State} {k : Time × Nat} (h : payoutStep s k = .ok s') (hq : s.payQ.has k = true)
+    (hc : CountInv s) (hi : SubIdx s) : SubIdx s' := by
+  obtain ⟨item, hitem, hv⟩ := payoutStep_view h
+  have hid : item.id = k.2 := (hc.payouts _ _ hitem).1
+  obtain ⟨p0, x, hp0, hn, _⟩ := (hi.payQ k.1 k.2).mp hq
+  rw [hitem] at hp0; simp only [Option.some.injEq] at hp0; subst hp0
+  have hq' : s.payQ.has (item.nextAt, k.2) = true := by rw [hn]; exact hq
+  refine SubIdxV.of_eq (hv.trans ?_) (payoutStepV (j := k.2) (p' := payoutAdvance item) hi.toV hitem hq'
+    (payoutAdvance_addr _) (payoutAdvance_node _) (payoutAdvance_hours _))
+  rw [hid]; rfl
+
 end Hub.Model
